@@ -1,5 +1,7 @@
 import Ptn.C13.Model
 import Ptn.C13.Views
+import Ptn.C13.EntryLemmas
+import Ptn.C13.Symbols
 import Ptn.C14.Props
 /-! C12, numeric case (core Lean only): the non-zero pattern of a reduced coefficient matrix, "fully
 reduced" (= partial permutation pattern), and the vertex covers of such a pattern.
@@ -127,5 +129,28 @@ def exNotReduced : EMat :=
 /-- A 3 × 3 numeric matrix of rank 2 without zero rows / columns. -/
 def exRank2 : EMat :=
   [[.num 1, .num 2, .num 0], [.num 2, .num 4, .num 1], [.num 3, .num 6, .num 1]]
+
+/-- No symbolic entry. -/
+def NumM (A : EMat) : Prop := AllE (Entry.SymIn (fun _ => False)) A
+
+theorem numM_gM {A : EMat} (h : NumM A) (i j : Nat) : ∃ q, gM (Entry.num 0) A i j = Entry.num q := by
+  have : Entry.SymIn (fun _ => False) (gM (Entry.num 0) A i j) := by
+    unfold gM
+    by_cases hi : i < A.length
+    · have hm : A.getD i [] ∈ A := by
+        rw [List.getD_eq_getElem?_getD, List.getElem?_eq_getElem hi]; exact List.getElem_mem hi
+      exact allE_getD trivial (h _ hm) j
+    · have hn : A[i]? = none := List.getElem?_eq_none (by omega)
+      simp [List.getD_eq_getElem?_getD, hn, Entry.SymIn]
+  cases hg : gM (Entry.num 0) A i j with
+  | num q => exact ⟨q, rfl⟩
+  | sym q s => rw [hg] at this; exact absurd this (by simp [Entry.SymIn])
+
+theorem numM_nesm {A : EMat} (h : NumM A) : NESM A := by
+  intro r hr e he
+  have := h r hr e he
+  cases e with
+  | num q => trivial
+  | sym q s => exact absurd this (by simp [Entry.SymIn])
 
 end Ptn.C12
